@@ -184,6 +184,91 @@ pub fn explore(opts: &Opts) -> Explored {
             }
         }
     });
+    // steps far below the normal range, on zero and tiny parameters (a magnitude guard in the step would show)
+    let mut local = local;
+    if !IS_F32 {
+        let l = &mut local;
+        for (pi, (pv, gv)) in [
+            (vec![0.0, 1.0e-300, -2.0], vec![4.0e-308, -2.0e-308, 1.0e-320]),
+            (vec![0.0, 0.0, 0.0, 5.0e-324], vec![2.0e-308, -1.0e-310, 3.0, -1.0e-323]),
+        ]
+        .iter()
+        .enumerate()
+        {
+            for &lr in &[0.5, 2.0, -1.0] {
+                let case = || format!("tiny steps list={} lr={}", pi, lr);
+                if !l.want(&case) {
+                    continue;
+                }
+                l.states += 1;
+                l.transitions += 1;
+                l.validated += 1;
+                let r = run_catch(|| {
+                    let mut p = Array::from((vec![pv.len()], fl(pv))).tracked();
+                    *p.gradient_mut() = Some(Array::from((vec![gv.len()], fl(gv))));
+                    let gd = GradientDescent::new(lr as Float);
+                    gd.update(vec![&mut p]);
+                    p.values().to_vec()
+                });
+                match r {
+                    Err(m) => l.violation("update", case(), format!("panicked: {}", m)),
+                    Ok(v) => {
+                        let want: Vec<Float> = pv.iter().zip(gv.iter()).map(|(x, g)| (*x as Float) - (lr as Float) * (*g as Float)).collect();
+                        l.outcome(digest_vals(&[v.len()], &v));
+                        if v.iter().zip(&want).any(|(a, b)| a.to_bits() != b.to_bits() && (*a as f64 - *b as f64).abs() > 4.0 * f64::EPSILON * (*b as f64).abs()) {
+                            l.violation("update", case(), format!("got {} but old - lr*g = {}", fmt_vals(&v), fmt_vals(&want)));
+                        }
+                    }
+                }
+            }
+        }
+    }
+    // more parameters than a machine word has bits, with a single frozen one late in the list
+    {
+        let l = &mut local;
+        for (count, frozen_at) in [(70usize, 66usize), (70, 3), (130, 129), (130, 64), (300, 257)] {
+            let case = || format!("{} parameters, number {} frozen", count, frozen_at);
+            if !l.want(&case) {
+                continue;
+            }
+            l.states += 1;
+            l.transitions += 1;
+            l.validated += 1;
+            let r = run_catch(|| {
+                let dims_of = |k: usize| -> Vec<usize> { [vec![6], vec![2, 3], vec![3, 2], vec![1, 6]][k % 4].clone() };
+                let mut params: Vec<Array> = (0..count).map(|k| Array::from((dims_of(k), (0..6).map(|i| (k * 6 + i) as Float).collect::<Vec<Float>>())).tracked()).collect();
+                for (k, p) in params.iter().enumerate() {
+                    if k != frozen_at {
+                        *p.gradient_mut() = Some(Array::from((dims_of(k), (0..6).map(|i| ((k + i) % 5) as Float + 1.0).collect::<Vec<Float>>())));
+                    }
+                }
+                let gd = GradientDescent::new(0.25);
+                gd.update(params.iter_mut().collect());
+                let mut msgs = Vec::new();
+                for (k, p) in params.iter().enumerate() {
+                    let want: Vec<Float> = (0..6).map(|i| (k * 6 + i) as Float - if k == frozen_at { 0.0 } else { 0.25 * (((k + i) % 5) as Float + 1.0) }).collect();
+                    if p.dimensions() != &dims_of(k)[..] || p.values() != &want[..] {
+                        msgs.push(format!("parameter {} is {:?} {}, expected {}", k, p.dimensions(), fmt_vals(p.values()), fmt_vals(&want)));
+                        break;
+                    }
+                    if p.gradient().is_some() {
+                        msgs.push(format!("parameter {} still holds a gradient", k));
+                        break;
+                    }
+                }
+                msgs
+            });
+            match r {
+                Err(m) => l.violation("update", case(), format!("panicked: {}", m)),
+                Ok(msgs) => {
+                    l.outcome(digest_str(&case()));
+                    if !msgs.is_empty() {
+                        l.violation("update", case(), msgs.join("; "));
+                    }
+                }
+            }
+        }
+    }
     Explored {
         local,
         bounds: json!({"shape_pool": pool, "list_lengths": format!("1..{}", max_len), "parameter_lists": lists.len(),
